@@ -91,6 +91,11 @@ def run_llir(prop, families, tier, seed, workdir):
             part['errors'].append({'family': fam.name, 'inst': r['inst'], 'error': r['error']})
         for mm in r['mismatches']:
             part['mismatches'].append({'family': fam.name, 'inst': r['inst'], **mm})
+        cc = r.get('cross') or (0, 0, [])
+        part['cross_checked'] = part.get('cross_checked', 0) + cc[0]
+        part['cross_agreed'] = part.get('cross_agreed', 0) + cc[1]
+        for b in cc[2]:
+            part['errors'].append({'family': fam.name, 'inst': r['inst'], 'error': 'solver disagreement: %s' % json.dumps(b)[:600]})
         if len(part['samples']) < 12:
             part['samples'].append({'family': fam.name, 'inst': r['inst'], 'paths': r['paths'], 'obligations': r['obligations'],
                                     'discharged': r['discharged'], 'wall_s': r['wall'], 'examples': r['samples'][:2]})
@@ -156,6 +161,8 @@ def finish(prop, tier, seed, parts, t0, meta):
             rule='one case = one feasible path of the real code under symbolic inputs x one assertion of the specification '
                  'whose condition is not syntactically true on that path (distinct by construction: path conditions are disjoint)',
             translator_validation=dict(cases=tot['validated'], mismatches=len(mismatches)),
+            cross_solver=dict(sampled_queries_rechecked_with_z3_4_8_12=sum(p.get('cross_checked', 0) for p in parts),
+                              agreed=sum(p.get('cross_agreed', 0) for p in parts)),
             known_findings_hit=known_hits,
             samples=samples[:12] or [{'note': 'no samples'}],
             per_engine=per_engine,
